@@ -109,6 +109,7 @@ inductive Op
   | inScope (t : Tid) (h : Key)                   -- h.in_scope(|| ())
   | record (h : Key)
   | follows (h h2 : Key)
+  | followsGuard (h g : Key)                      -- h.follows_from(&guard): the entered guard names the span
   | current (t : Tid) (h : Key)                   -- h = Span::current()
   | orCurrent (t : Tid) (h h2 : Key)              -- h2 = h.or_current()
   | instrument (h f : Key)                        -- f = fut.instrument(h)
@@ -176,6 +177,13 @@ def step (s : PState) : Op → PState
     | some o, some o2 =>
       match o.kind, o.ref, o2.kind, o2.ref with
       | .handle, some (c, id), .handle, some (_, id2) => emit s (.follows c id id2)
+      | _, _, _, _ => s
+    | _, _ => s
+  | .followsGuard h g =>
+    match find h s.owners, find g s.owners with
+    | some o, some o2 =>
+      match o.kind, o.ref, o2.kind, o2.ref with
+      | .handle, some (c, id), .guard _, some (_, id2) => emit s (.follows c id id2)
       | _, _, _, _ => s
     | _, _ => s
   | .current t h =>
